@@ -5,6 +5,8 @@ import (
 	"container/list"
 	"fmt"
 	"os"
+
+	"github.com/mikefarah/yq/v4/pkg/verifhook"
 )
 
 var LoadYamlPreferences = YamlPreferences{
@@ -35,11 +37,18 @@ func loadWithDecoder(filename string, decoder Decoder) (*CandidateNode, error) {
 		return nil, fmt.Errorf("could not load %s", filename)
 	}
 
+	if err := verifhook.Step("load.open", filename); err != nil {
+		return nil, err
+	}
 	file, err := os.Open(filename) // #nosec
 	if err != nil {
 		return nil, err
 	}
 	reader := bufio.NewReader(file)
+	if hooked := verifhook.Reader("load", filename, file); hooked != nil {
+		reader = bufio.NewReader(hooked)
+	}
+	verifhook.Yield("load.opened")
 
 	documents, err := readDocuments(reader, filename, 0, decoder)
 	if err != nil {
